@@ -234,8 +234,10 @@ def _bcd_epoch(X, y, w, Xw, lipschitz, datafit, penalty, ws):
         lipschitz_g = lipschitz[g]
         grad_g = datafit.gradient_g(X, y, w, Xw, g)
 
+        # an all-zero group has a zero Lipschitz constant (and a zero gradient)
+        stepsize = 1 / lipschitz_g if lipschitz_g != 0 else 1000
         w[grp_g_indices] = penalty.prox_1group(
-            old_w_g - grad_g / lipschitz_g, 1 / lipschitz_g, g)
+            old_w_g - grad_g * stepsize, stepsize, g)
 
         for idx, j in enumerate(grp_g_indices):
             if old_w_g[idx] != w[j]:
@@ -255,8 +257,10 @@ def _bcd_epoch_sparse(
         lipschitz_g = lipschitz[g]
         grad_g = datafit.gradient_g_sparse(X_data, X_indptr, X_indices, y, w, Xw, g)
 
+        # an all-zero group has a zero Lipschitz constant (and a zero gradient)
+        stepsize = 1 / lipschitz_g if lipschitz_g != 0 else 1000
         w[grp_g_indices] = penalty.prox_1group(
-            old_w_g - grad_g / lipschitz_g, 1 / lipschitz_g, g)
+            old_w_g - grad_g * stepsize, stepsize, g)
 
         for idx, j in enumerate(grp_g_indices):
             if old_w_g[idx] != w[j]:
